@@ -28,6 +28,8 @@ def main(tier: str) -> int:
     ]
     # documents / containers in package histories
     run_package_property(run, tier, prefixes=("C10:",), ntraces=100 if tier == "quick" else 2500)
+    # lazily loaded parts: path-backed zip, some parts read, many files added, then cloned
+    run_package_property(run, tier, prefixes=("C10:", "C04:"), ntraces=48 if tier == "quick" else 1200, sources="lazy-clone", mc=False)
     # tables: two-object Grid model
     n = 300 if tier == "quick" else 6000
     traces = td.generate(n, run.seed, 12, clones=True)
